@@ -6,6 +6,7 @@ import z3
 
 sys.path.insert(0, os.path.dirname(os.path.dirname(os.path.abspath(__file__))))
 from values import *        # noqa
+from models import chars_of
 import chars as C
 import c06
 import c17
@@ -375,6 +376,59 @@ def path_de(ctx, arg):
                       detail='emit -> parse -> emit gives a different document', vkey='de|reemit')
         return
     ctx.tag('identical')
+
+
+def path_pipe(ctx, arg):
+    """pipe equivalence in-process: the object a direct run ends with (ZervDraft::to_zerv with default arguments on a
+    symbolic draft) is emitted (zerv's Display -> ron), handed to the stdin source (process_cached_stdin_source ->
+    parse_and_validate_zerv_ron -> ron::from_str::<Zerv>) and taken through ZervDraft::to_zerv again — all from MIR;
+    the second object must be identical to the first (hence every rendering of it is the same)"""
+    import models_serde as MSD
+    I, w = ctx.I, ctx.w
+    name, order = arg['order']
+    A, sv, (lp, lc) = _build_zerv(ctx, order, 'A', arg['schema'])
+
+    def conc(m):
+        d = sv.concrete(m)
+        d['last_tag_version'] = [m.eval(lc, model_completion=True).as_long()] if m.eval(lp, model_completion=True).as_long() else None
+        return d
+    import models_env as ME
+    ME.SHARED_CLOCK[0] = True        # both stages read the same wall clock: the documented dirty-state timestamp is factored out
+    try:
+        va = I.call('<VersionArgs as Default>::default', [])
+        d0 = I.call('ZervDraft::new', [deep_copy(A.fields[1]), some(deep_copy(A.fields[0]))])
+        r1 = I.call('ZervDraft::to_zerv', [d0, ValPtr(va)])
+        if r1.variant != 0:
+            ctx.tag('direct_rejected')
+            return
+        Z1 = peel(r1.fields[0])
+        ctx.tag('direct_ok')
+        text = I.call('<Zerv as ToString>::to_string', [ValPtr(Z1)])
+        rd = I.call('process_cached_stdin_source', [ValPtr(va), some(Str(list(chars_of(text))))])
+        if rd.variant != 0:
+            ctx.violation(clause='pipe', what='stdin_rejected', orders=[name, name], order_a=order, vars=conc(w.get_model()), schema_spec=repr(arg['schema']),
+                          detail='the document a direct run emits is refused by the stdin source', vkey='pipe|rejected')
+            return
+        r2 = I.call('ZervDraft::to_zerv', [rd.fields[0], ValPtr(va)])
+    except Panic as e:
+        ctx.violation(clause='panic', what='pipe', detail=str(e), vkey='panic|pipe')
+        return
+    finally:
+        ME.SHARED_CLOCK[0] = False
+    if r2.variant != 0:
+        ctx.violation(clause='pipe', what='second_stage_failed', orders=[name, name], order_a=order, vars=conc(w.get_model()), schema_spec=repr(arg['schema']),
+                      detail='the piped document is accepted but the second stage fails', vkey='pipe|stage2')
+        return
+    ctx.tag('piped')
+    Z2 = peel(r2.fields[0])
+    same = val_eq(Z1, Z2)
+    m = w.get_model() if same is False else (None if same is True else w.find(z3.Not(MSD._b(same))))
+    if m is not None:
+        diff = _first_diff(Z1, Z2, m)
+        ctx.violation(clause='pipe', what='object_changed', orders=[name, name], order_a=order, vars=conc(m), schema_spec=repr(arg['schema']), differs_at=diff,
+                      detail='zerv version | zerv version --source stdin changes the object at %s' % diff, vkey='pipe|changed|' + diff.split('[')[0])
+    else:
+        ctx.tag('identical')
 
 
 def _first_diff(a, b, m, path='zerv'):
